@@ -47,7 +47,7 @@ def apply(b, ops):
 # result is still framed and the damage reaches the payload decoders instead of the framing checks
 
 TREE_KINDS = ['empty', 'content', 'ident', 'dup', 'drop', 'swap', 'toindef', 'todef', 'fragment', 'zero-child',
-              'nest']
+              'nest', 'bloat', 'longtag']
 
 
 class _T(object):
@@ -122,6 +122,16 @@ def tree_op(b, kind, index, arg=None):
             t.content = raw
         else:
             t.kids, t.content = [], raw
+    elif kind == 'bloat':
+        # very long content for a primitive node (an INTEGER of thousands of digits, a tag number of thousands of
+        # bits, ...): beyond what CPython turns into decimal text, which is where message formatting breaks
+        fill, n = (arg or '7f:2000').split(':')
+        if t.kids is None:
+            t.content = bytes([int(fill, 16)]) + b'\x5a' * (int(n) - 1)
+    elif kind == 'longtag':
+        fill, n = (arg or 'ff:2100').split(':')
+        first = (t.ident[0] if t.ident else 0x1f) | 0x1f
+        t.ident = bytes([first]) + bytes([int(fill, 16) | 0x80]) * int(n) + b'\x01'
     elif kind == 'ident':
         t.ident = bytes.fromhex(arg or '04')
         if t.kids is not None and not t.ident[0] & 0x20:
@@ -260,6 +270,10 @@ def gen_tree_op(r, nodes):
         arg = '%02x' % r.choice([0x03, 0x04, 0x04, 0x0c, 0x02, 0x05, 0x24, 0x23, 0x30])
     elif kind == 'nest':
         arg = '%02x' % r.choice([0x30, 0x31, 0xa0, 0xa1, 0x24, 0x23, 0x2c])
+    elif kind == 'bloat':
+        arg = '%02x:%d' % (r.choice([0x7f, 0xff, 0x80, 0x01, 0x31]), r.choice([300, 1786, 2000, 5000]))
+    elif kind == 'longtag':
+        arg = '%02x:%d' % (r.choice([0xff, 0x81, 0x80]), r.choice([9, 100, 2041, 3000]))
     elif kind == 'fragment':
         arg = '%s:%s:%s' % (r.choice(['-', '-', '-', '04', '03', '24']), r.choice('di'),
                             r.choice(['half', 'half', 'empty-first', 'empty-last', 'single', 'three', 'none']))
